@@ -123,6 +123,23 @@ impl RecProc {
     }
 }
 
+/// One character through ufmt. The library's `Writer` does not override `uWrite::write_char`, so this runs the method
+/// *provided by ufmt-write 0.1.0*, which builds its scratch buffer with `mem::uninitialized::<[u8; 4]>()`. Miri rejects that
+/// as undefined behaviour inside ufmt-write (found by the C03 Miri stage, DESIGN.md 12.6): it is not one of the operations
+/// C03 speaks about and not embedded-cli code, and Miri cannot continue past it, so under Miri the character travels as a
+/// one-character `&str` instead. Every other build runs the real thing.
+fn ufmt_char(w: &mut embedded_cli::writer::Writer<'_, MonSink, SinkErr>, ch: char, formatted: bool) -> Result<(), SinkErr> {
+    if cfg!(miri) {
+        let mut b = [0u8; 4];
+        let s: &str = ch.encode_utf8(&mut b);
+        ufmt::uwrite!(w, "{}", s)
+    } else if formatted {
+        ufmt::uwrite!(w, "{}", ch)
+    } else {
+        ufmt::uWrite::write_char(w, ch)
+    }
+}
+
 pub fn do_writes(
     w: &mut embedded_cli::writer::Writer<'_, MonSink, SinkErr>,
     calls: &[WCall],
@@ -139,7 +156,7 @@ pub fn do_writes(
             }
             WKind::UfmtCh => {
                 for ch in c.text.chars() {
-                    ufmt::uwrite!(w, "{}", ch)?;
+                    ufmt_char(w, ch, true)?;
                 }
             }
             WKind::FmtCh => {
@@ -162,7 +179,7 @@ pub fn do_writes(
             WKind::Ch => {
                 for (i, ch) in c.text.chars().enumerate() {
                     if i % 2 == 0 {
-                        ufmt::uWrite::write_char(w, ch)?;
+                        ufmt_char(w, ch, false)?;
                     } else if core::fmt::Write::write_char(w, ch).is_err() {
                         return Err(SinkErr(usize::MAX - 1));
                     }
